@@ -1088,3 +1088,98 @@ Proof.
   exact (unblind_blind_key toy toy_pk toy_laws 1000 ex_asset ex_abf ex_vbf ex_script ex_rsk ex_esk
            ex_R ex_E [] 0%Z 52%Z ex_bl H1 H2 H3 H4 H5 H6).
 Qed.
+
+(* ---------- statements as exported to Props/C06.v (no unused parameters) ---------- *)
+Section Exported.
+Context {G C : Type} (P : prims G C) (pk : bytes -> option bytes) (L : laws P pk).
+
+(* an output blinded by the library for recipient key pair (rsk, R) with ephemeral pair (esk, E) *)
+Definition blinded_for (value : N) (asset abf vbf script rsk esk R E : bytes) (exp mb : Z) (bl : blinded) : Prop :=
+  length asset = 32%nat /\ length abf = 32%nat /\ length vbf = 32%nat /\
+  pk rsk = Some R /\ pk esk = Some E /\
+  blind_output P value asset abf vbf script R esk exp mb = Some bl.
+
+Variables (value : N) (asset abf vbf script rsk esk R E : bytes) (exp mb : Z) (bl : blinded).
+Hypothesis B : blinded_for value asset abf vbf script rsk esk R E exp mb bl.
+
+Let u0 := mk_unb value asset vbf abf.
+
+Theorem x_unblind_blind_key : forall sp,
+  unblind_with_key P (out_of_blinded bl script E sp) rsk = ROk u0.
+Proof. destruct B as (H1 & H2 & H3 & H4 & H5 & H6). intro sp.
+  eapply unblind_blind_key with (asset := asset) (abf := abf) (vbf := vbf) (esk := esk) (R := R) (E := E); eassumption. Qed.
+
+Theorem x_unblind_blind_nonce : forall sp,
+  unblind_with_nonce P (out_of_blinded bl script E sp) (bl_nonce bl) = ROk u0.
+Proof. destruct B as (H1 & H2 & H3 & H4 & H5 & H6). intro sp.
+  eapply unblind_blind_nonce with (asset := asset) (abf := abf) (vbf := vbf) (esk := esk) (R := R) (E := E); eassumption. Qed.
+
+Theorem x_revealed_recreates_commitments : forall sp u,
+  unblind_with_key P (out_of_blinded bl script E sp) rsk = ROk u ->
+  u = u0 /\
+  asset_commitment P (u_asset u) (u_abf u) = Some (bl_asset bl) /\
+  value_commitment P (u_value u) (bl_asset bl) (u_vbf u) = Some (bl_value bl).
+Proof.
+  destruct B as (H1 & H2 & H3 & H4 & H5 & H6). intros sp u Hu.
+  eapply revealed_recreates_commitments with (asset := asset) (abf := abf) (vbf := vbf) (esk := esk) (R := R) (E := E); eassumption.
+Qed.
+
+Theorem x_fresh_proof_verifies :
+  verify_range_proof P (bl_value bl) (bl_asset bl) script (bl_proof bl) = true.
+Proof.
+  destruct B as (H1 & H2 & H3 & H4 & H5 & H6).
+  eapply fresh_proof_verifies with (asset := asset) (abf := abf) (vbf := vbf) (esk := esk) (R := R) (E := E) (sp := []); eassumption.
+Qed.
+
+Theorem x_wrong_key_fails : forall sp k,
+  k <> rsk -> unblind_with_key P (out_of_blinded bl script E sp) k = RErr.
+Proof. destruct B as (H1 & H2 & H3 & H4 & H5 & H6). intros sp k Hk.
+  eapply wrong_key_fails with (asset := asset) (abf := abf) (vbf := vbf) (rsk := rsk) (esk := esk) (R := R) (E := E); eassumption. Qed.
+
+Theorem x_wrong_nonce_fails : forall sp n,
+  fit 32 n <> bl_nonce bl -> unblind_with_nonce P (out_of_blinded bl script E sp) n = RErr.
+Proof. destruct B as (H1 & H2 & H3 & H4 & H5 & H6). intros sp n Hn.
+  eapply wrong_nonce_fails_with_nonce with (asset := asset) (abf := abf) (vbf := vbf) (esk := esk) (R := R) (E := E); eassumption. Qed.
+
+Theorem x_tampered_script_fails : forall script' sp k n,
+  script' <> script ->
+  let o' := mk_out (bl_asset bl) (bl_value bl) script' E (bl_proof bl) sp in
+  unblind_with_key P o' k = RErr /\ unblind_with_nonce P o' n = RErr.
+Proof.
+  destruct B as (H1 & H2 & H3 & H4 & H5 & H6). intros script' sp k n Hne.
+  eapply tampered_script_fails with (asset := asset) (abf := abf) (vbf := vbf) (esk := esk) (R := R) (E := E); eassumption.
+Qed.
+
+Theorem x_tampered_value_commitment_fails : forall vc' sp k n,
+  vc' <> bl_value bl ->
+  let o' := mk_out (bl_asset bl) vc' script E (bl_proof bl) sp in
+  unblind_with_key P o' k = RErr /\ unblind_with_nonce P o' n = RErr.
+Proof.
+  destruct B as (H1 & H2 & H3 & H4 & H5 & H6). intros vc' sp k n Hne.
+  eapply tampered_value_commitment_fails with (asset := asset) (abf := abf) (vbf := vbf) (esk := esk) (R := R) (E := E); eassumption.
+Qed.
+
+Theorem x_tampered_asset_commitment_fails : forall ac' sp k n,
+  length ac' = 33%nat -> ac' <> bl_asset bl ->
+  let o' := mk_out ac' (bl_value bl) script E (bl_proof bl) sp in
+  unblind_with_key P o' k = RErr /\ unblind_with_nonce P o' n = RErr.
+Proof.
+  destruct B as (H1 & H2 & H3 & H4 & H5 & H6). intros ac' sp k n Hl Hne.
+  eapply tampered_asset_commitment_fails with (asset := asset) (abf := abf) (vbf := vbf) (esk := esk) (R := R) (E := E); eassumption.
+Qed.
+
+Theorem x_never_other_amounts : forall o' k u,
+  o_rp o' = bl_proof bl -> is_conf_out o' = true ->
+  unblind_with_key P o' k = ROk u -> u = u0.
+Proof. destruct B as (H1 & H2 & H3 & H4 & H5 & H6). intros o' k u.
+  eapply never_other_amounts with (asset := asset) (abf := abf) (vbf := vbf) (esk := esk) (R := R); eassumption. Qed.
+
+Theorem x_tampered_proof_never_other_value : forall p' sp k u,
+  unblind_with_key P (mk_out (bl_asset bl) (bl_value bl) script E p' sp) k = ROk u ->
+  u_value u = value /\ u_vbf u = vbf.
+Proof.
+  destruct B as (H1 & H2 & H3 & H4 & H5 & H6). intros p' sp k u Hu.
+  eapply tampered_proof_never_other_value with (asset := asset) (abf := abf) (vbf := vbf) (esk := esk) (R := R) (E := E); eassumption.
+Qed.
+
+End Exported.
